@@ -2,7 +2,8 @@
 CONSTANTS
   Inputs <- MCInputs
   MaxExpA = 2
-  MaxExpC = 1
+  MaxExpC1 = 1
+  MaxExpC2 = 1
   LevelIdx = {1, 2, 3}
   SizeIdx = {1, 2, 3, 4}
   Owners = {"o1", "o2"}
@@ -13,4 +14,5 @@ CONSTANTS
   MaxGroupsD = 8
 INIT Init
 NEXT Next
-INVARIANTS TypeOK InvPlacement InvSandbox InvLimits InvIngress InvEgress InvPositive InvComplete
+INVARIANTS TypeOK InvPlacement InvSandbox InvLimits InvIngress InvEgress InvIngressOther InvEgressOther InvPositive InvComplete InvTornDown
+PROPERTIES Isolation
